@@ -113,6 +113,9 @@ func TestVerifC17ReadConfig(t *testing.T) {
 	if err != nil {
 		t.Fatal(err)
 	}
+	if rb, err := filepath.EvalSymlinks(base); err == nil {
+		base = rb
+	}
 	defer os.RemoveAll(base)
 	for i := 0; i < n; i++ {
 		root := filepath.Join(base, fmt.Sprintf("t%d", i), "etc")
